@@ -76,7 +76,10 @@ EXOTIC = ["md5", "sm3"]
 RAW_SIZES = {32, 48, 66}
 MSG_LENS = [0, 1, 16, 55, 56, 63, 64, 65, 100, 1000, 5000]
 PASSWORDS = [("none", None), ("empty", ""), ("ascii", "secret123"), ("spaces", "pass word with  spaces"),
-             ("unicode", "pä$$wörd-ключ-鍵"), ("long", None)]
+             ("unicode", "pä$$wörd-ключ-鍵"), ("long", None),
+             # a password is a password: text that happens to look like an environment reference, a home directory or the
+             # name of a file in the working directory is still taken literally by the key classes
+             ("envvar", None), ("tilde", "~/key pass"), ("filename", None)]
 
 
 # ------------------------------------------------------------------------------------------------
@@ -422,6 +425,12 @@ def indep_public(data: bytes, enc_name: str, want: dict) -> dict:
 
 
 def _password(rng, pc, pw):
+    if pc == "envvar":
+        name = next((n for n in ("HOME", "PATH", "USER", "PWD") if os.environ.get(n)), None)
+        return ("${%s}-x$%s" % (name, name)) if name else "$HOME"
+    if pc == "filename":
+        here = sorted(f for f in os.listdir(".") if os.path.isfile(f) and f.isascii() and " " not in f)
+        return here[0] if here else "no-file-here"
     if pc == "long":
         alphabet = "abcdefghijklmnopqrstuvwxyzABCDEFGHIJKLMNOPQRSTUVWXYZ0123456789!#%&()*+,-.:<>?@[]^_{|}"
         return "".join(rng.choice(alphabet) for _ in range(200))
@@ -447,8 +456,9 @@ def battery_private(ctx, agg, rng, k, want, kcls, budget):
                "extract_public_key", "extract_public_keys", "PlainFileSP"]
     if budget is not None:  # RSA private parsing costs 50-300 ms (OpenSSL key check): sample
         rng.shuffle(combos)
-        nopw = next(c for c in combos if not c[2] and c[1] != "long")
-        withpw = next(c for c in combos if c[2] or c[1] == "long")
+        made = ("long", "envvar", "filename")  # classes whose text is made at run time
+        nopw = next(c for c in combos if not c[2] and c[1] not in made)
+        withpw = next(c for c in combos if c[2] or c[1] in made)
         combos = [nopw, withpw] + [c for c in combos if c not in (nopw, withpw)][: max(0, budget - 2)]
     for enc_name, pc, pw in combos:
         pw = _password(rng, pc, pw)
@@ -476,8 +486,8 @@ def battery_private(ctx, agg, rng, k, want, kcls, budget):
                 agg.ok("private", what + "-decoded", *cls)
         use = entries if want["type"] == "ecc" else rng.sample(entries, 3)
         for entry in use:
-            if entry == "PlainFileSP" and pw and any(ch in pw for ch in "$~"):
-                continue
+            if entry == "PlainFileSP" and pw and (any(ch in pw for ch in "$~") or pc == "filename"):
+                continue  # the provider documents its password argument as a secret reference (file, $VARIABLE, ~)
             ctx.count("priv_roundtrip")
             try:
                 if entry == "PrivateKey.parse":
